@@ -566,3 +566,150 @@ pub fn h_mapo_apply_rm_same_ctx(inp: &Inp) -> u8 {
         1
     }
 }
+
+//@ harness props=C18,C05 variants=2+NK*(2+NMM) covers=3,4 name=Map<Orswot> reset_remove(c) on SPEC(U,K) for any clock c: map clock, entry clocks, nested set clocks / member witnesses and pending contexts lose exactly the covered dots; emptied entries, members and pending removes vanish
+#[no_mangle]
+pub fn h_mapo_reset_remove(inp: &Inp) -> u8 {
+    use crate::ResetRemove;
+    let mut i = In::new(inp);
+    let v = i.variant(FINE);
+    let u = any_uni(&mut i);
+    let k = any_know(&mut i, &u);
+    let flip = i.bool();
+    let c = any_vclock(&mut i);
+    if !i.ok {
+        return 2;
+    }
+    let mut s = spec(&u, &k, flip);
+    s.reset_remove(&c);
+    let keep = |x: u64, a: u8| if x > vget(&c, a) { x } else { 0 };
+    // expected state
+    let clock = vc_from(|a| keep(k.seen[a as usize], a));
+    let mut items: Vec<(u8, Vc, Orswot<u8, u8>)> = Vec::new();
+    let mut emptied = false;
+    let mut key = 0u8;
+    while key < NK {
+        if kpresent(&u, &k, key) {
+            let ec = vc_from(|a| keep(kwit(&u, &k, key, a as usize), a));
+            if ec.is_empty() {
+                emptied = true;
+            } else {
+                let mut entries: HashMap<u8, Vc> = HashMap::new();
+                let mut m = 0u8;
+                while m < NMM {
+                    let mc = vc_from(|a| keep(mwit(&u, &k, key, m, a as usize), a));
+                    if !mc.is_empty() {
+                        entries.insert(m, mc);
+                    }
+                    m += 1;
+                }
+                items.push((key, ec.clone(), Orswot { clock: ec, entries, deferred: HashMap::new() }));
+            }
+        }
+        key += 1;
+    }
+    let mut deferred: HashMap<Vc, BTreeSet<u8>> = HashMap::new();
+    let mut r = 0;
+    while r < NR {
+        if pending(&u, &k, r) {
+            let ctx = vc_from(|a| keep(u.rm_ctx[r][a as usize], a));
+            if !ctx.is_empty() {
+                let set = deferred.entry(ctx).or_default();
+                let mut key = 0u8;
+                while key < NK {
+                    if (u.rm_keys[r] >> key) & 1 == 1 {
+                        set.insert(key);
+                    }
+                    key += 1;
+                }
+            }
+        }
+        r += 1;
+    }
+    let want = acc::from_parts(clock, items, deferred);
+    if !fine_slice_eq(&s, &want, v) {
+        return 0;
+    }
+    if emptied {
+        3
+    } else if pending(&u, &k, 0) {
+        4
+    } else {
+        1
+    }
+}
+
+/// some dot is the current witness of key x in one map and of a different key in the other
+fn key_double_spent(x: &M, y: &M) -> bool {
+    let mut r = false;
+    let mut p = 0u8;
+    while p < NK {
+        let mut q = 0u8;
+        while q < NK {
+            if p != q {
+                let mut a = 0u8;
+                while a < NA {
+                    let c = vget(&x.get(&p).rm_clock, a);
+                    if c != 0 && c == vget(&y.get(&q).rm_clock, a) {
+                        r = true;
+                    }
+                    a += 1;
+                }
+            }
+            q += 1;
+        }
+        p += 1;
+    }
+    r
+}
+
+//@ harness props=C17 covers=3,4 kf=201 name=Map<Orswot> validate_merge: Ok in both directions for every pair SPEC(U,K1), SPEC(U,K2) under correct use; under misuse (two independent universes sharing actor ids) a dot that witnesses different keys is flagged in both directions
+#[no_mangle]
+pub fn h_mapo_validate_merge(inp: &Inp) -> u8 {
+    let mut i = In::new(inp);
+    let u1 = any_uni(&mut i);
+    let k1 = any_know(&mut i, &u1);
+    let k2 = any_know(&mut i, &u1);
+    let misuse = i.bool();
+    let u2 = any_uni(&mut i);
+    let k3 = any_know(&mut i, &u2);
+    if !i.ok {
+        return 2;
+    }
+    let x = spec(&u1, &k1, false);
+    let y = if misuse { spec(&u2, &k3, false) } else { spec(&u1, &k2, true) };
+    let v1 = x.validate_merge(&y).is_err();
+    let v2 = y.validate_merge(&x).is_err();
+    if !misuse {
+        if v1 || v2 {
+            // the nested sets may trip over D4 (one add_all dot on several members)
+            let mut multi = false;
+            let mut a = 0;
+            while a < NAU {
+                let mut c = 0;
+                while c < NCU {
+                    let m = u1.mem[a][c];
+                    if m & m.wrapping_sub(1) != 0 {
+                        multi = true;
+                    }
+                    c += 1;
+                }
+                a += 1;
+            }
+            if multi {
+                return 201;
+            }
+            return 0;
+        }
+        return if acc::n_entries(&x) > 0 && acc::n_entries(&y) > 0 { 3 } else { 1 };
+    }
+    // misuse: a key-level double spent dot must be reported, in both directions
+    if key_double_spent(&x, &y) && !(v1 && v2) {
+        return 0;
+    }
+    if key_double_spent(&x, &y) {
+        4
+    } else {
+        1
+    }
+}
